@@ -62,6 +62,10 @@ type palsCase struct {
 	NetDel int `json:"net_del,omitempty"`
 	// LowID: minimum identity below 0.85 (soundness only)
 	LowID bool `json:"low_id,omitempty"`
+	// PriorMinHit > 0: the same PALS value is first optimised for these other settings, indexed and
+	// run on the forward strand (results discarded), then re-optimised for the settings proper.
+	PriorMinHit int `json:"prior_min_hit,omitempty"`
+	PriorMinID  int `json:"prior_min_id_pct,omitempty"`
 	// Family: the query carries a second, exact copy of the (mutated) repeat further along: a repeat
 	// family. Both query copies must be recovered against the one target copy (ordinary comparison only).
 	Family bool `json:"family,omitempty"`
@@ -320,6 +324,15 @@ func check(c palsCase) *vlib.Failure {
 	p := pals.New(ts, qs, c.Self, m, 0, &mem, nil)
 	defer p.CleanUp()
 	desc := fmt.Sprintf("Tlen=%d Qlen=%d minHitLen=%d minId=%.2f repeat %d letters with %d differences at t[%d,%d) q[%d,%d) reverse=%v self=%v", len(b.target), len(b.query), c.MinHit, b.minID, b.tl, b.diffs, b.t0, b.t0+b.tl, b.q0, b.q0+b.ql, c.Reverse, c.Self)
+	if c.PriorMinHit > 0 {
+		// an earlier life of the same aligner under other settings
+		if err := p.Optimise(c.PriorMinHit, float64(c.PriorMinID)/100); err == nil {
+			if err := p.BuildIndex(); err == nil {
+				p.Align(false)
+			}
+		}
+		desc += fmt.Sprintf(" [aligner used before with minHitLen=%d minId=%.2f]", c.PriorMinHit, float64(c.PriorMinID)/100)
+	}
 	if err := p.Optimise(c.MinHit, b.minID); err != nil {
 		return vlib.Failf("optimise", "%s: %v", desc, err)
 	}
@@ -471,6 +484,16 @@ func gen(t *rapid.T) palsCase {
 	if !c.Self && rapid.IntRange(0, 4).Draw(t, "family") == 0 {
 		c.Family = true
 	}
+	if rapid.IntRange(0, 5).Draw(t, "aligner-used-before") == 3 {
+		c.PriorMinHit = rapid.IntRange(100, 400).Draw(t, "prior-min-hit")
+		c.PriorMinID = rapid.IntRange(85, 95).Draw(t, "prior-min-id")
+		if rapid.IntRange(0, 2).Draw(t, "prior-same-identity") > 0 {
+			// the same identity usually leads Optimise to the same word size: what is derived from
+			// the word size alone (the index) may be kept, everything else has to follow the new settings
+			c.PriorMinID = c.MinIDPct
+			c.PriorMinHit = min(400, c.MinHit*rapid.IntRange(2, 4).Draw(t, "prior-longer"))
+		}
+	}
 	return c
 }
 
@@ -503,6 +526,9 @@ func classes(c palsCase) []string {
 	}
 	if c.Family && !c.Self {
 		l = append(l, "repeat-family")
+	}
+	if c.PriorMinHit > 0 {
+		l = append(l, "aligner-re-optimised-after-an-earlier-use")
 	}
 	return l
 }
